@@ -17,8 +17,9 @@ ASSUMPTIONS = ["an abstract string is exactly characterised by its length and th
 
 TEXT_WELL = ("rack_label", "rack_id", "rack_type", "tube_id", "liquid_class", "forced_rack_type")
 LIMIT32 = ("rack_label", "rack_id", "rack_type")
-TIPS = {"default": None, "3": 3, "(1,2)": (1, 2), "T4": "T4", "0": 0, "9": 9, "2.5": 2.5, "[Any]": "[Any]", "[2,T2]": "[2,T2]"}
-TIPMASK = {"default": "", "3": "4", "(1,2)": "3", "T4": "8", "[2,T2]": "2"}
+TIPS = {"default": None, "3": 3, "(1,2)": (1, 2), "T4": "T4", "0": 0, "9": 9, "2.5": 2.5, "[Any]": "[Any]", "[2,T2]": "[2,T2]",
+        "iter(1,4)": "iter(1,4)", "gen(T1,8)": "gen(T1,8)", "iter(1,12)": "iter(1,12)"}   # one-shot iterables are Iterables too
+TIPMASK = {"default": "", "3": "4", "(1,2)": "3", "T4": "8", "[2,T2]": "2", "iter(1,4)": "9", "gen(T1,8)": "129"}
 
 
 def shards(tier):
@@ -93,6 +94,12 @@ def mktip(spec):
         return [Tip.Any, 1]
     if v == "[2,T2]":
         return [2, Tip.T2]
+    if v == "iter(1,4)":
+        return iter([1, 4])
+    if v == "gen(T1,8)":
+        return (t for t in (Tip.T1, 8))
+    if v == "iter(1,12)":
+        return iter([1, 12])
     return v
 
 
